@@ -291,6 +291,44 @@ def check_equations(ctx, bp):
                     z = n
     ctx.ob('bp-equations', bp, z if z is not None else bp.node, z is not None,
            'logZ must be the full logsumexp of a calibrated belief, taken after all messages were sent')
+    # the logZ exit: what `belief_propagation(potentials, True)` hands back is that logsumexp ITSELF - the log partition function of the
+    # potentials, which does not depend on self.total (krondot multiplies by self.total / exp(logZ) on its own)
+    flag = bp.params[2] if len(bp.params) > 2 else None
+    env = {}
+
+    def subst(e):
+        class S_(ast.NodeTransformer):
+            def visit_Name(self, n):
+                if isinstance(n.ctx, ast.Load) and n.id in env:
+                    return clone(env[n.id])
+                return n
+        return S_().visit(clone(e))
+    from ..srcmodel import clone
+    n_exit = 0
+    for s in after:
+        if isinstance(s, ast.Assign) and len(s.targets) == 1 and isinstance(s.targets[0], ast.Name):
+            env[s.targets[0].id] = subst(s.value)
+        elif isinstance(s, ast.AugAssign) and isinstance(s.target, ast.Name) and s.target.id in env:
+            env[s.target.id] = ast.BinOp(left=env[s.target.id], op=s.op, right=subst(s.value))
+        elif isinstance(s, ast.If) and flag is not None and U(s.test) == flag and not s.orelse:
+            for r in [x for x in s.body if isinstance(x, ast.Return) and x.value is not None]:
+                v = subst(r.value)
+                t = ex2.term(v) if isinstance(v, ast.Call) else None
+                pure = isinstance(v, ast.Call) and isinstance(v.func, ast.Attribute) and v.func.attr == 'logsumexp' and not v.args and not v.keywords \
+                    and t is not None and t[0] == 'lse' and t[1][0] == 'belief'
+                has_lse = any(isinstance(n, ast.Call) and isinstance(n.func, ast.Attribute) and n.func.attr == 'logsumexp' for n in ast.walk(v))
+                if not pure and not (has_lse and isinstance(v, (ast.BinOp, ast.UnaryOp))):
+                    raise AnalysisError('belief_propagation: the value returned on the `%s` exit, `%s`, is in no recognised form' % (flag, U(v)[:80]))
+                n_exit += 1
+                ctx.ob('bp-equations', bp, r, pure,
+                       'the `%s` exit returns the log partition function itself - the full logsumexp of a calibrated belief, nothing added or '
+                       'subtracted (its caller krondot scales by self.total / exp(logZ) on its own); returns `%s`' % (flag, U(v)[:100]),
+                       construct='value of the %s exit' % flag)
+            break
+        elif isinstance(s, (ast.For, ast.While, ast.If, ast.With, ast.Try)):
+            break
+    if flag is not None and not n_exit and any(isinstance(n, ast.Name) and n.id == flag and isinstance(n.ctx, ast.Load) for n in ast.walk(bp.node)):
+        raise AnalysisError('belief_propagation: the `%s` exit was not found after the message loop' % flag)
 
 
 def describe(t):
